@@ -12,7 +12,8 @@ RULE = ('all didOpen/didChange sequences of length <= L over 2 URIs x 6 texts (v
 
 TEXTS = [
     'FUNCTION_BLOCK helper_fb\nVAR_INPUT i : BOOL; END_VAR\nEND_FUNCTION_BLOCK\nPROGRAM p0\nVAR a : BOOL; END_VAR\na := TRUE;\nEND_PROGRAM\n',
-    'PROGRAM p1\nVAR a : BOOL; END_VAR\na := ? TRUE;\nEND_PROGRAM\n',
+    # (two pieces of text that are no token: the command line reports the first lexical error only)
+    'PROGRAM p1\nVAR a : BOOL; END_VAR\na := ? TRUE;\na := $ FALSE;\nEND_PROGRAM\n',
     'PROGRAM p2\nVAR a : BOOL END_VAR\nEND_PROGRAM\n',
     'PROGRAM p3\n  VAR a : BOOL; END_VAR\n  (* é *) b := TRUE;\nEND_PROGRAM\n',
     'FUNCTION_BLOCK user_fb\nVAR h : helper_fb; END_VAR\nh(i := TRUE);\nEND_FUNCTION_BLOCK\n',
